@@ -11,10 +11,13 @@
     * `items`: every item has `1 ≤ len ≤ icap`, pairwise distinct rx values, `qval ≥` every
                rx it keeps (in the order of `Time64.Before`), and (ghost) every entry was
                written on behalf of the item's own client id.
+  `Inv` adds heap order (`HeapOk`): `qval(parent) ≤ qval(child)` for every heap slot.
+  `P` is an arbitrary predicate on entries that the written entries satisfy (C06 uses it;
+  here it is `True`).
   All statements are parametric in the capacities (`1 ≤ cap`, `1 ≤ icap < 10^9`); the pins
   instantiate them with the constants regenerated from /repo.
 -/
-import ScionTime.Proofs.ServerOps
+import ScionTime.Proofs.ServerOpsHeap
 import ScionTime.Gen.Server
 namespace ScionTime.Props.C07
 open ScionTime.Time64 ScionTime.Server
@@ -22,26 +25,37 @@ open ScionTime.Time64 ScionTime.Server
 theorem C07_pin_tssCap : Gen.Server.tssCap = (tssCap : Int) := by decide
 theorem C07_pin_tssItemCap : Gen.Server.tssItemCap = (tssItemCap : Int) := by decide
 
+/-- no condition on the entries -/
+abbrev PT : Entry → Prop := fun _ => True
+
+/-- structural invariant + heap order -/
+def Inv (cap icap : Nat) (st : State) : Prop := Inv0 PT cap icap st ∧ HeapOk st
+
 /-- The empty store satisfies the invariant. -/
-theorem C07_inv_init (cap icap : Nat) : Inv0 cap icap init := by
-  refine ⟨⟨by simp [init, Map.keys], rfl, ?_, ?_⟩, by simp [init], ?_⟩
+theorem C07_inv_init (cap icap : Nat) : Inv cap icap init := by
+  refine ⟨⟨⟨by simp [init, Map.keys], rfl, ?_, ?_⟩, by simp [init], ?_⟩, ?_⟩
   · intro i hi; simp [init] at hi
   · intro k q hq; simp [init, pos] at hq
   · intro k it h; simp [init] at h
+  · intro c _ hc; simp [init] at hc
 
-/-- `handleRequest` preserves the invariant (repaired and original code alike). -/
+/-- `handleRequest` preserves the invariant (repaired and original code alike): size bounds,
+    distinct rx per client, map/heap agreement with exact back pointers, heap order,
+    `qval ≥` every kept rx. -/
 theorem C07_inv_handleRequest (strict : Bool) (cap icap : Nat) (hcap : 1 ≤ cap) (hic : 1 ≤ icap)
-    (hic2 : icap < 1000000000) (st : State) (inv : Inv0 cap icap st) (id : Nat) (req : Req)
-    (rxt now : Int) : Inv0 cap icap (handleRequestG strict cap icap st id req rxt now).st :=
-  inv0_handleRequestG strict cap icap hcap hic hic2 st inv id req rxt now
+    (hic2 : icap < 1000000000) (st : State) (inv : Inv cap icap st) (id : Nat) (req : Req)
+    (rxt now : Int) : Inv cap icap (handleRequestG strict cap icap st id req rxt now).st :=
+  ⟨inv0_handleRequestG strict cap icap hcap hic hic2 st inv.1 id req rxt now (fun _ _ _ _ _ => trivial),
+   heapOk_handleRequestG strict cap icap hcap st inv.1.wf inv.2 id req rxt now⟩
 
 /-- `updateTXTimestamp` preserves the invariant. -/
-theorem C07_inv_updateTX (cap icap : Nat) (st : State) (inv : Inv0 cap icap st) (id : Nat)
-    (rxt txt1 : Int) : Inv0 cap icap (updateTX st id rxt txt1).1 :=
-  inv0_updateTX cap icap st inv id rxt txt1
+theorem C07_inv_updateTX (cap icap : Nat) (st : State) (inv : Inv cap icap st) (id : Nat)
+    (rxt txt1 : Int) : Inv cap icap (updateTX st id rxt txt1).1 :=
+  ⟨inv0_updateTX cap icap st inv.1 id rxt txt1 (fun _ _ _ _ _ _ => trivial),
+   heapOk_updateTX st inv.1.wf inv.2 id rxt txt1⟩
 
 theorem C07_inv_step (cap icap : Nat) (hcap : 1 ≤ cap) (hic : 1 ≤ icap) (hic2 : icap < 1000000000)
-    (st : State) (inv : Inv0 cap icap st) (op : Op) : Inv0 cap icap (stepOp cap icap st op) := by
+    (st : State) (inv : Inv cap icap st) (op : Op) : Inv cap icap (stepOp cap icap st op) := by
   cases op with
   | hr id req rxt now => exact C07_inv_handleRequest true cap icap hcap hic hic2 st inv id req rxt now
   | utx id rxt txt1 => exact C07_inv_updateTX cap icap st inv id rxt txt1
@@ -49,7 +63,7 @@ theorem C07_inv_step (cap icap : Nat) (hcap : 1 ≤ cap) (hic : 1 ≤ icap) (hic
 /-- The invariant holds after every finite history of requests and transmit-timestamp updates
     (any mix of clients, any timestamps), started from any state satisfying it. -/
 theorem C07_inv_run_from (cap icap : Nat) (hcap : 1 ≤ cap) (hic : 1 ≤ icap) (hic2 : icap < 1000000000)
-    (ops : List Op) : ∀ st, Inv0 cap icap st → Inv0 cap icap (run cap icap st ops) := by
+    (ops : List Op) : ∀ st, Inv cap icap st → Inv cap icap (run cap icap st ops) := by
   induction ops with
   | nil => intro st h; exact h
   | cons op ops ih =>
@@ -57,7 +71,7 @@ theorem C07_inv_run_from (cap icap : Nat) (hcap : 1 ≤ cap) (hic : 1 ≤ icap) 
     exact ih _ (C07_inv_step cap icap hcap hic hic2 st h op)
 
 theorem C07_inv_run (cap icap : Nat) (hcap : 1 ≤ cap) (hic : 1 ≤ icap) (hic2 : icap < 1000000000)
-    (ops : List Op) : Inv0 cap icap (run cap icap init ops) :=
+    (ops : List Op) : Inv cap icap (run cap icap init ops) :=
   C07_inv_run_from cap icap hcap hic hic2 ops init (C07_inv_init cap icap)
 
 /-- Bounds for the real constants: after any history at most 2^20 clients are kept, heap and
@@ -68,7 +82,7 @@ theorem C07_bounded (ops : List Op) :
     st.items.length ≤ 1048576 ∧ st.heap.size = st.items.length ∧
       ∀ k it, st.items.find k = some it →
         1 ≤ it.buf.length ∧ it.buf.length ≤ 8 ∧ (it.buf.map (·.rx)).Nodup := by
-  have inv := C07_inv_run tssCap tssItemCap (by decide) (by decide) (by decide) ops
+  have inv := (C07_inv_run tssCap tssItemCap (by decide) (by decide) (by decide) ops).1
   refine ⟨inv.size, inv.wf.len.symm, ?_⟩
   intro k it h
   have ok := inv.items k it h
@@ -83,7 +97,7 @@ theorem C07_heap_map_agree (cap icap : Nat) (hcap : 1 ≤ cap) (hic : 1 ≤ icap
     (∀ i, i < st.heap.size → ∃ it, st.items.find (hkey st i) = some it ∧ it.qidx = i) ∧
     (∀ k it, st.items.find k = some it → it.qidx < st.heap.size ∧ hkey st it.qidx = k) ∧
     (∀ i j, i < st.heap.size → j < st.heap.size → hkey st i = hkey st j → i = j) := by
-  have inv := C07_inv_run cap icap hcap hic hic2 ops
+  have inv := (C07_inv_run cap icap hcap hic hic2 ops).1
   refine ⟨?_, ?_, ?_⟩
   · intro i hi
     have := inv.wf.fwd i hi
@@ -96,32 +110,49 @@ theorem C07_heap_map_agree (cap icap : Nat) (hcap : 1 ≤ cap) (hic : 1 ≤ icap
   · intro i j hi hj e
     exact inv.wf.inj hi hj e
 
+/-- The index of clients by most recent activity is a valid priority order after any
+    history: no heap slot's `qval` is `Before` its parent's. -/
+theorem C07_heap_order (cap icap : Nat) (hcap : 1 ≤ cap) (hic : 1 ≤ icap) (hic2 : icap < 1000000000)
+    (ops : List Op) (c : Nat) (hc0 : 0 < c) (hc : c < (run cap icap init ops).heap.size) :
+    before (kv (run cap icap init ops) c) (kv (run cap icap init ops) ((c - 1) / 2)) = false :=
+  (C07_inv_run cap icap hcap hic hic2 ops).2 c hc0 hc
+
+/-- Heap slot 0 holds a least recently active client: no kept client's `qval` is `Before`
+    the `qval` in slot 0. -/
+theorem C07_top_is_min (cap icap : Nat) (st : State) (inv : Inv cap icap st) (k : Nat) (it : Item)
+    (h : st.items.find k = some it) : before it.qval (kv st 0) = false := by
+  obtain ⟨hq, hk⟩ := inv.1.wf.bwd k it.qidx (by unfold pos; rw [h]; rfl)
+  have := root_le st st.heap.size inv.2 it.qidx hq
+  have e : kv st it.qidx = it.qval := by unfold kv qv; rw [hk, h]
+  rw [e] at this
+  exact this
+
 /-- The client's place in the activity index never ranks it older than any exchange kept
     for it: `qval` is not `Before` any kept receive timestamp. -/
 theorem C07_qval_ge_rx (cap icap : Nat) (hcap : 1 ≤ cap) (hic : 1 ≤ icap) (hic2 : icap < 1000000000)
     (ops : List Op) (k : Nat) (it : Item) (e : Entry)
     (h : (run cap icap init ops).items.find k = some it) (he : e ∈ it.buf) :
     before it.qval e.rx = false :=
-  ((C07_inv_run cap icap hcap hic hic2 ops).items k it h).qval_ge e he
+  ((C07_inv_run cap icap hcap hic hic2 ops).1.items k it h).qval_ge e he
 
-/-- No index of `handleRequest`/`updateTXTimestamp` is out of range in a reachable state
-    (`tssQ[0]` is read only when the store is full, hence non-empty; `heap.Fix`/`heap.Remove`
-    get a valid slot). -/
-theorem C07_no_index_panic (cap icap : Nat) (hcap : 1 ≤ cap) (st : State) (inv : Inv0 cap icap st)
+/-- No index of `handleRequest`/`updateTXTimestamp` is out of range in a state satisfying the
+    invariant (`tssQ[0]` is read only when the store is full, hence non-empty;
+    `heap.Fix`/`heap.Remove` get a valid slot). -/
+theorem C07_no_index_panic (cap icap : Nat) (hcap : 1 ≤ cap) (st : State) (inv : Inv cap icap st)
     (id : Nat) : hrPanics cap st id = false ∧ utxPanics st id = false := by
   unfold hrPanics utxPanics
   cases hf : Map.find st.items id with
   | none =>
     simp only [Bool.and_eq_false_iff, decide_eq_false_iff_not, and_true]
     by_cases h : st.items.length = cap
-    · right; have := inv.wf.len; omega
+    · right; have := inv.1.wf.len; omega
     · left; exact h
   | some it =>
-    have := (inv.wf.bwd id it.qidx (by unfold pos; rw [hf]; rfl)).1
+    have := (inv.1.wf.bwd id it.qidx (by unfold pos; rw [hf]; rfl)).1
     simp only [decide_eq_false_iff_not, Nat.not_le]
     exact ⟨this, this⟩
 
-theorem evict_spec (cap icap : Nat) (hcap : 1 ≤ cap) (st : State) (inv : Inv0 cap icap st) (rxt64 : T64) :
+theorem evict_spec (cap icap : Nat) (hcap : 1 ≤ cap) (st : State) (inv : Inv0 PT cap icap st) (rxt64 : T64) :
     ((evict cap st rxt64).2 = none ∧ (evict cap st rxt64).1 = st ∧
         ¬ (st.items.length = cap ∧ after (kv st 0) rxt64 = false)) ∨
     ((evict cap st rxt64).2 = some (hkey st 0) ∧ st.items.length = cap ∧
@@ -152,7 +183,7 @@ theorem evict_spec (cap icap : Nat) (hcap : 1 ≤ cap) (st : State) (inv : Inv0 
     store whose minimum is later is served statelessly (the store does not change at all).
     Requests of known clients never evict. (That slot 0 holds a least recently active
     client is `C07_top_is_min`.) -/
-theorem C07_evict_top_only (cap icap : Nat) (hcap : 1 ≤ cap) (st : State) (inv : Inv0 cap icap st)
+theorem C07_evict_top_only (cap icap : Nat) (hcap : 1 ≤ cap) (st : State) (inv : Inv cap icap st)
     (id : Nat) (req : Req) (rxt now : Int) :
     (∀ k, (handleRequest cap icap st id req rxt now).evicted = some k →
         st.items.find id = none ∧ st.items.length = cap ∧ k = hkey st 0 ∧
@@ -166,7 +197,7 @@ theorem C07_evict_top_only (cap icap : Nat) (hcap : 1 ≤ cap) (st : State) (inv
   · rename_i it hit
     exact ⟨(by intro k h; cases h), (by intro _ h; rw [hit] at h; cases h)⟩
   · rename_i hnone
-    have es := evict_spec cap icap hcap st inv (ofTime rxt)
+    have es := evict_spec cap icap hcap st inv.1 (ofTime rxt)
     generalize evict cap st (ofTime rxt) = ev at es ⊢
     have hevd : ∀ (a b : HR), a.evicted = ev.2 → b.evicted = ev.2 → ∀ (c : Prop) [Decidable c],
         (if c then a else b).evicted = ev.2 := by
